@@ -103,6 +103,8 @@ def body_reshape(S, spec):
         except Exception as e:
             # (for arrays in the known-finding situation the reverse trip meets the same scan failure)
             S.structural.append((("idfused:" if trig and not tag.startswith("idfused:") else "") + f"{tag}:back-raised:{type(e).__name__}", str(e)))
+    if not trig and spec.get("expand", True):
+        _expansions(S, x, tuple(shape), sub_sizes)
     _identity(S, x, shape, trig)
     if S.mode == "sym":
         cx = orc.coords(x)
@@ -124,6 +126,46 @@ def _check_target(S, tag, x, y, t, shape):
         y3 = ar.do("reshape", x, t)
         same_value(S, tag + ":fn", y2, y)
         same_value(S, tag + ":ar", y3, y)
+
+
+def _expansions(S, x, shape, sub_sizes):
+    """targets that are *not* reachable by merging/dropping: a new size-one axis at every position, alone or in the same call that
+    splits an already-fused axis again.  Only the general clauses are demanded of y = x.reshape(t) (rank, no axis larger than requested,
+    valid, content), plus the stated round trip for the array y itself: its shape -> (drop the size-one axis, merge) -> back restores y."""
+    targets = [shape[:p] + (1,) + shape[p:] for p in range(len(shape) + 1)]
+    for i, ix in enumerate(x.indices):
+        if ix.subinfo is not None:
+            ss = sub_sizes(ix)
+            if int(np.prod(ss)) != shape[i]:
+                continue  # (sub-sectors were dropped from the fused axis: no shape in terms of the sub-axes has the array's size)
+            base = shape[:i] + ss + shape[i + 1:]
+            # (left and right of the re-split axis; a new axis *between* its sub-axes is refused with ValueError by the library - a loud refusal, not claimed)
+            targets += [base[:p] + (1,) + base[p:] for p in (i, i + len(ss))]
+    for t in targets:
+        tag = f"expand{t}"
+        try:
+            y = x.reshape(t)
+        except zt.Abort:
+            raise
+        except Exception as e:
+            S.structural.append((f"{tag}:raised:{type(e).__name__}", str(e)))
+            continue
+        try:
+            S.require(tag + ":rank", y.ndim == len(t), f"rank {y.ndim} for target {t}")
+            probs = orc.audit(y)
+            S.require(tag + ":valid", not probs, "; ".join(probs[:2]))
+            S.require(tag + ":not-larger", all(d <= r for d, r in zip(total_sizes(y), t)), f"axes {total_sizes(y)} larger than requested {t}")
+            content_preserved(S, tag, x, y)
+            same_value(S, tag + ":fn", sr.reshape(x, t), y)
+            w = y.reshape(shape)
+            S.require(tag + ":drop:rank", w.ndim == len(shape), f"rank {w.ndim} for target {shape}")
+            same_value(S, tag + ":drop+back", w.reshape(total_sizes(y)), y)
+        except Violation as v:
+            S.structural.append((v.name, v.detail))
+        except zt.Abort:
+            raise
+        except Exception as e:
+            S.structural.append((f"{tag}:back-raised:{type(e).__name__}", str(e)))
 
 
 def _identity(S, x, shape, trig):
